@@ -1,7 +1,14 @@
+fn unhex(hex: &str) -> Vec<u8> { (0..hex.len()/2).map(|i| u8::from_str_radix(&hex[2*i..2*i+2], 16).unwrap()).collect() }
 fn main() {
-    let hex = "21050000002072957f0f01017dffff01840009ffff5bd9d8c579335a17a5b382f6dc3a041fc43076ecdd448f9ca2f888d05cd4b14dc84000";
-    let b: Vec<u8> = (0..hex.len()/2).map(|i| u8::from_str_radix(&hex[2*i..2*i+2], 16).unwrap()).collect();
+    let which = std::env::args().nth(1).unwrap_or_default();
     let t = std::time::Instant::now();
-    let r = noodles_cram::verif::fqzcomp_decode(&b);
-    println!("{:?} in {:?}", r.map(|v| v.len()), t.elapsed());
+    if which == "tok" {
+        let b = unhex(&std::env::args().nth(2).unwrap());
+        let r = noodles_cram::verif::name_tokenizer_decode(&b);
+        println!("{:?} in {:?}", r.map(|v| v.len()), t.elapsed());
+    } else {
+        let b = unhex(&std::env::args().nth(2).unwrap());
+        let r = noodles_cram::verif::fqzcomp_decode(&b);
+        println!("{:?} in {:?}", r.map(|v| v.len()), t.elapsed());
+    }
 }
